@@ -270,8 +270,9 @@ Section Total.
     rewrite Hop, Hnp. cbv zeta.
     (* the tests before the permission checks first (an outermost-first case split would lose them) *)
     destruct (get (f_heap s) oc) as [[ch m|d k i m|t m]|].
-    1: match goal with |- context [if ?b then Some (if ?b2 then ROk else _) else None] => destruct b; [destruct b2|] end.
-    4,5: match goal with |- context [if ?b then Some ROk else None] => destruct b end.
+    1: match goal with |- context [if ?b then Some (if ?b2 then ROk else _) else if ?b3 then _ else None] =>
+         destruct b; [destruct b2|destruct b3] end.
+    5,6: match goal with |- context [if ?b then Some ROk else None] => destruct b end.
     all: cbv iota; brk_lite.
   Qed.
 
